@@ -39,6 +39,11 @@ def plan(tier):
         if tier == 'thorough':
             out.append((C.cfg(3, edges, ['ok'] * 3, 2, init=[(1, 'DONE', True)]), 2))
             out.append((C.cfg(3, edges, ['ok'] * 3, 2, init=[(1, 'DONE', True), (2, 'DONE', True)]), 1))
+    # B'': a DepGraph used as a node of the hard graph (flattened by the scheduler), added before or after the plain tasks
+    for edges in (C.JOIN3, C.CHAIN3, C.FORK3HS) if tier == 'quick' else (C.JOIN3, C.CHAIN3, C.FORK3, C.FORK3HS, C.TRI3, C.JOIN3HS):
+        for members in ((0,), (1,), (2,), (0, 1), (1, 2), (0, 2)):
+            for first in (True, False):
+                out.append((C.cfg(3, edges, ['ok'] * 3, 2, nest=(members, first)), 1))
     # C: every forward DAG on 3 tasks, every edge hard or soft
     for edges in C.forward_dags(3):
         out.append((C.cfg(3, edges, ['ok'] * 3, 2), 1))
